@@ -81,9 +81,11 @@ def run(args):
     P_short = 1 if args.tier == 'quick' else 2
     ops = ['D', 'O', 'U', 'X', 'C', 'Dd', 'Oo', 'Uu', 'Xx', 'v', 'p'] if args.tier != 'quick' else ['D', 'U', 'X', 'Xx', 'Oo', 'p']
     for oa, ob in itertools.product(ops, ops):
-        jobs.append((P_short, ('Big', der['Big'][0], oa), ('Big', der['Big'][1], ob), 3000000))
+        # schedule cap per pair: bound 1 always completes; bound 2 completes for the pairs with up to ~350 scheduling points and is
+        # reported as partially explored (capped) for the longer ones - the evidence says which (pairs_bound_<k>, capped_pairs)
+        jobs.append((P_short, ('Big', der['Big'][0], oa), ('Big', der['Big'][1], ob), 3000000 if args.tier == 'quick' else 60000))
         if args.tier != 'quick':
-            jobs.append((P_short, ('Big', der['Big'][0], oa), ('Wide', der['Wide'][0], ob), 3000000))
+            jobs.append((P_short, ('Big', der['Big'][0], oa), ('Wide', der['Wide'][0], ob), 60000))
 
     def one(job):
         P, a, b, mx = job
@@ -100,6 +102,11 @@ def run(args):
         for job, (rc, out, err, cmd) in zip(jobs, ex.map(one, jobs)):
             P, a, b, mx = job
             label = '%s:%s|%s:%s' % (a[0], a[2], b[0], b[2])
+            if rc == -999:
+                # the per-pair wall-clock limit is a cap on exploration, not an observation about the library
+                stats['pairs_timed_out'] += 1
+                stats['capped_pairs'] += 1
+                continue
             if rc != 0 or 'sched points=' not in out:
                 kind = 'harness_error' if 'sched ERR' in out else 'crash'
                 chk.violation(dict(kind=kind, pair=label, detail=(out.strip() or err)[-200:]), dict(cmd=' '.join(cmd)[:3000], stdout=out[-2000:], stderr=err))
